@@ -11,6 +11,7 @@ from __future__ import annotations
 import asyncio
 import random
 import re
+import zlib
 
 from gen import http_gen as G
 from sim.world import World
@@ -33,8 +34,9 @@ LEVEL_TEXT = (
     "For every listed stream all single and double cut sets are delivered through the real RequestHandler / "
     "ResponseHandler (real data_received, tail handling, pause/resume) and each outcome is compared with the whole-"
     "delivery and byte-at-a-time outcomes: accepted streams must give identical messages, fields, bodies and chunk "
-    "boundaries; rejected streams must be rejected under every segmentation with the same class (limit / other), with "
-    "prefix-consistent delivered messages. Exhaustive for the enumerated cut sets of the listed streams; longer streams "
+    "boundaries (for a content-coded body: of the decoded data) and, after an accepted upgrade, the identical bytes handed "
+    "to the upgraded protocol; rejected streams must be rejected under every segmentation with the same class (limit / "
+    "other), with prefix-consistent delivered messages. Exhaustive for the enumerated cut sets of the listed streams; longer streams "
     "are sampled."
 )
 LEVEL_NOTE = (
@@ -47,12 +49,19 @@ RULE = (
     "request pipelines / responses (valid and mutated) x random k-cuts and adversarial cuts (after CR, inside chunk "
     "size, between header block and body, inside a line whose length is at its limit). One run = one stream x a block "
     "of cut sets; non-trivial when the stream yields at least one message or a rejection; distinct = (stream, limits, "
-    "block) signature. `segmentations` in probes counts individual deliveries schedules executed."
+    "block) signature. `segmentations` in probes counts individual deliveries schedules executed. Both parts include "
+    "messages whose outcome has more parts than head and plain body: bodies under a Content-Encoding (gzip, zlib-wrapped "
+    "and header-less deflate; Content-Length, chunked, until-EOF) - the reader's view is the decoded data - and upgrade "
+    "offers with and without a body followed by bytes of the upgraded protocol, which the recording application "
+    "accepts (installs a byte recorder with protocol.set_parser once the message is read) or declines; about 14 % of "
+    "the seeded scenarios, with additional cut sets confined to the body / hand-over region (probes coded_body, "
+    "upgrade_taken, upgraded_bytes_seen)."
 )
 COMPONENTS = {
     "real": ["web_protocol.RequestHandler (via web.Server)", "client_proto.ResponseHandler", "http_parser (Python) request and "
              "response parsers, HttpPayloadParser", "streams.StreamReader", "web_request.BaseRequest"],
-    "stub": ["network (SimNet explicit cut lists)", "application (recording handler / recording consumer)"],
+    "stub": ["network (SimNet explicit cut lists)", "application (recording handler / recording consumer)",
+             "upgraded protocol (byte recorder installed through protocol.set_parser)"],
 }
 ASSUMPTIONS = [
     "the outcome class of a rejection is {limit hit, other}; which exact error text is produced may depend on where the "
@@ -125,6 +134,63 @@ LIMIT_SETS = [
 ]
 
 
+# ---------------------------------------------------------------------------
+# streams whose parse outcome has more parts than head + plain body: a content-coded body (what the
+# reader gets is the decoded data) and a protocol upgrade (what follows the message belongs to the
+# upgraded protocol and must reach it byte for byte)
+
+
+def _coded(data: str, coding: str, level: int = 6) -> str:
+    """`data` under a Content-Encoding; "deflate-raw" is the header-less deflate form that is widely sent
+    under the name `deflate` and that aiohttp accepts by looking at the first body byte."""
+    wbits = {"gzip": 31, "deflate": 15, "deflate-raw": -15}[coding]
+    c = zlib.compressobj(level, zlib.DEFLATED, wbits)
+    return G.dec(c.compress(G.enc(data)) + c.flush())
+
+
+def _chunked(data: str, sizes, exts=("",), trailers="") -> str:
+    out, pos, i = [], 0, 0
+    while pos < len(data):
+        k = max(1, sizes[i % len(sizes)])
+        piece = data[pos:pos + k]
+        out.append("%x%s\r\n%s\r\n" % (len(piece), exts[i % len(exts)], piece))
+        pos += k
+        i += 1
+    return "".join(out) + "0\r\n" + trailers + "\r\n"
+
+
+# opaque bytes of an upgraded protocol (websocket-like frames); they contain CRLFs, so a parser that wrongly
+# goes on reading HTTP trips over them
+_FRAMES = "\x81\x03hi\r\n\x88\x02\x03\xe8\r\n\r\n"
+_TXT = "hello hello hello hello"
+
+# (stream, handler accepts an offered upgrade)
+SERVER_STREAMS_X = [
+    ("POST /p HTTP/1.1\r\nHost: a\r\nContent-Encoding: deflate\r\nTransfer-Encoding: chunked\r\n\r\n"
+     + _chunked(_coded(_TXT, "deflate-raw"), [4, 64]) + "GET /n HTTP/1.1\r\nHost: a\r\n\r\n", False),
+    ("POST /p HTTP/1.1\r\nHost: a\r\nContent-Encoding: deflate\r\nContent-Length: %d\r\n\r\n%s" % (
+        len(_coded(_TXT, "deflate")), _coded(_TXT, "deflate")) + "GET /n HTTP/1.1\r\nHost: a\r\n\r\n", False),
+    ("PUT /p HTTP/1.1\r\nHost: a\r\nContent-Encoding: gzip\r\nTransfer-Encoding: chunked\r\n\r\n"
+     + _chunked(_coded(_TXT, "gzip"), [10, 3, 64], exts=("", ";x")), False),
+    ("GET /ws HTTP/1.1\r\nHost: a\r\nConnection: Upgrade\r\nUpgrade: websocket\r\nContent-Length: 4\r\n\r\nabcd" + _FRAMES, True),
+    ("GET /ws HTTP/1.1\r\nHost: a\r\nConnection: Upgrade\r\nUpgrade: websocket\r\nContent-Length: 4\r\n\r\nabcd" + _FRAMES, False),
+    ("POST /t HTTP/1.1\r\nHost: a\r\nConnection: upgrade\r\nUpgrade: tcp\r\nTransfer-Encoding: chunked\r\n\r\n"
+     + _chunked("abcdef", [4, 2], trailers="T: v\r\n") + _FRAMES, True),
+    ("GET /ws HTTP/1.1\r\nHost: a\r\nConnection: Upgrade\r\nUpgrade: websocket\r\n\r\n" + _FRAMES, True),
+]
+
+# (stream, close after, consumer accepts an upgrade)
+CLIENT_STREAMS_X = [
+    ("HTTP/1.1 200 OK\r\nContent-Encoding: deflate\r\nTransfer-Encoding: chunked\r\n\r\n"
+     + _chunked(_coded(_TXT, "deflate-raw"), [5, 64]), False, False),
+    ("HTTP/1.1 200 OK\r\nContent-Encoding: gzip\r\nContent-Length: %d\r\n\r\n%s" % (
+        len(_coded(_TXT, "gzip")), _coded(_TXT, "gzip")), False, False),
+    ("HTTP/1.0 200 OK\r\nContent-Encoding: deflate\r\n\r\n" + _coded(_TXT, "deflate"), True, False),
+    ("HTTP/1.1 101 Switching Protocols\r\nConnection: Upgrade\r\nUpgrade: websocket\r\n\r\n" + _FRAMES, False, True),
+    ("HTTP/1.1 200 OK\r\nConnection: Upgrade\r\nUpgrade: tcp\r\nContent-Length: 4\r\n\r\nabcd" + _FRAMES, False, True),
+]
+
+
 def _all_cut_sets(n, mode):
     if mode == "single":
         return [[i] for i in range(1, n)]
@@ -147,6 +213,23 @@ def enumerate_cases(tier, seed):
             extra -= 1
     nlim = 3 if tier == "quick" else len(LIMIT_SETS)
     block = 400
+    # coded bodies and upgrades (own generator, so that the cases below are what they were): the single cuts
+    # first, their pairs of cuts after the older streams
+    rng_x = random.Random(seed * 7919 + 5)
+    xs = [("server", s, False, acc) for s, acc in SERVER_STREAMS_X] + [("client", s, e, acc) for s, e, acc in CLIENT_STREAMS_X]
+    x_doubles = []
+    for side, s, eof, acc in xs:
+        n = len(s)
+        lims = [LIMIT_SETS[0]] + rng_x.sample(LIMIT_SETS[1:], nlim - 1)
+        for lim in lims:
+            yield {"side": side, "stream": s, "eof": eof, "limits": lim, "mode": "single", "cuts": None, "block": [0, n],
+                   "strict_class": True, "accept_upgrade": acc}
+            total = (n - 1) * (n - 2) // 2
+            if n <= 170 and (tier != "quick" or lim is lims[0] or lim is lims[1]):
+                for b in range(0, total, block):
+                    x_doubles.append({"side": side, "stream": s, "eof": eof, "limits": lim, "mode": "double", "cuts": None,
+                                      "block": [b, min(block, total - b)], "strict_class": True, "accept_upgrade": acc})
+    doubles = []
     for side, s, eof, strict in streams:
         n = len(s)
         lims = [LIMIT_SETS[0]] + rng.sample(LIMIT_SETS[1:], nlim - 1)
@@ -156,12 +239,144 @@ def enumerate_cases(tier, seed):
             if n <= 170:
                 total = (n - 1) * (n - 2) // 2
                 for b in range(0, total, block):
-                    yield {"side": side, "stream": s, "eof": eof, "limits": lim, "mode": "double", "cuts": None,
-                           "block": [b, min(block, total - b)], "strict_class": strict}
+                    doubles.append({"side": side, "stream": s, "eof": eof, "limits": lim, "mode": "double", "cuts": None,
+                                    "block": [b, min(block, total - b)], "strict_class": strict})
+    # every stream has had its single cuts (and whole / byte-at-a-time delivery, which every run includes): now the pairs
+    yield from doubles
+    yield from x_doubles
+
+
+_X_SHARE = 0.14   # share of seeded scenarios that carry a coded body and/or an upgrade
+
+
+def _x_selected(rng) -> bool:
+    """Decide, without consuming from `rng`, whether this scenario is one of the coded-body / upgrade
+    scenarios; the scenarios that are not selected stay exactly what they were before these were added."""
+    peek = random.Random()
+    peek.setstate(rng.getstate())
+    return random.Random(peek.getrandbits(64) ^ 0xC03).random() < _X_SHARE
+
+
+def _x_limits(rng):
+    r = rng.random()
+    if r < 0.45:
+        return dict(LIMIT_SETS[0])
+    if r < 0.7:
+        return dict(LIMIT_SETS[1])
+    if r < 0.85:
+        return dict(LIMIT_SETS[5])
+    return dict(rng.choice(LIMIT_SETS))
+
+
+def _x_body(rng, framing_choices):
+    """-> (header lines, body text, coding): a body under a content coding (or none) in one of the framings."""
+    coding = rng.choice(["none", "gzip", "deflate", "deflate-raw", "deflate-raw"])
+    data = G.body_bytes(rng, rng.choice([1, 5, 40, 300]))
+    wire = data if coding == "none" else _coded(data, coding, rng.choice([1, 6, 9]))
+    hdrs = []
+    if coding != "none":
+        name = coding.split("-")[0]
+        hdrs.append("Content-Encoding: " + rng.choice([name, name, name.upper()]))
+    framing = rng.choice(framing_choices)
+    if framing == "nobody":
+        return [], "", "none"
+    if framing == "cl":
+        hdrs.append("Content-Length: %d" % len(wire))
+        text = wire
+    elif framing == "chunked":
+        hdrs.append("Transfer-Encoding: chunked")
+        sizes = [rng.choice([1, 2, 5, 16, 64, 1000]) for _ in range(rng.randint(1, 4))]
+        exts = [rng.choice(["", "", ";a=b"]) for _ in range(2)]
+        text = _chunked(wire, sizes, exts, rng.choice(["", "", "X-T: tv\r\n"]))
+    else:  # until the peer closes
+        text = wire
+    rng.shuffle(hdrs)
+    return hdrs, text, coding
+
+
+def _x_tail(rng):
+    """Opaque bytes of the upgraded protocol."""
+    return rng.choice([_FRAMES, "\x81\x05hello", "\r\n\r\n", "\x82\x7e\x00\x80" + G.body_bytes(rng, 128), "GET / HTTP/1.1\r\n\r\n",
+                       "\x88\x00", G.body_bytes(rng, rng.choice([1, 20, 70]))])
+
+
+def _gen_x(rng):
+    """A message with a content-coded body and/or a protocol upgrade (with or without a body), inside a short
+    pipeline; cut sets as for the other scenarios plus cuts confined to the body / hand-over region."""
+    upgrade = rng.random() < 0.5
+    parts = []
+    if rng.random() < 0.7:
+        side, eof = "server", False
+        if rng.random() < 0.4:
+            parts.append(G.serialize(G.gen_request(rng, 0, body_max=40)))
+        if upgrade:
+            hdrs, body, coding = _x_body(rng, ["cl", "cl", "chunked", "chunked", "nobody"])
+            hdrs += ["Connection: " + rng.choice(["Upgrade", "upgrade", "keep-alive, Upgrade"]),
+                     "Upgrade: " + rng.choice(["websocket", "websocket", "WebSocket", "tcp"])]
+        else:
+            hdrs, body, coding = _x_body(rng, ["cl", "chunked", "chunked"])
+        rng.shuffle(hdrs)
+        head = "%s %s HTTP/1.1\r\nHost: h.test\r\n" % (rng.choice(["POST", "PUT", "GET"]), rng.choice(["/p", "/ws", "/a/b?x=1"]))
+        mark = len("".join(parts)) + len(head) + sum(len(h) + 2 for h in hdrs) + 2
+        parts.append(head + "".join(h + "\r\n" for h in hdrs) + "\r\n" + body)
+        if upgrade:
+            parts.append(_x_tail(rng))
+        elif rng.random() < 0.7:
+            parts.append(G.serialize(G.gen_request(rng, 2, body_max=40)))
+    else:
+        side = "client"
+        eof = False
+        if rng.random() < 0.25:
+            parts.append("HTTP/1.1 100 Continue\r\n\r\n")
+        if upgrade and rng.random() < 0.5:
+            hdrs, body, coding = ["Connection: Upgrade", "Upgrade: websocket"], "", "none"
+            head = "HTTP/1.1 101 Switching Protocols\r\n"
+        else:
+            hdrs, body, coding = _x_body(rng, ["cl", "chunked", "chunked"] if upgrade else ["cl", "chunked", "chunked", "eof"])
+            if not any(h.startswith(("Content-Length", "Transfer-Encoding")) for h in hdrs):
+                eof = True
+                hdrs.append("Connection: close")
+            if upgrade:
+                hdrs += ["Connection: upgrade", "Upgrade: " + rng.choice(["websocket", "tcp"])]
+            head = rng.choice(["HTTP/1.1 200 OK\r\n", "HTTP/1.1 200 OK\r\n", "HTTP/1.0 200 OK\r\n" if eof else "HTTP/1.1 206 Partial\r\n"])
+        rng.shuffle(hdrs)
+        mark = len("".join(parts)) + len(head) + sum(len(h) + 2 for h in hdrs) + 2
+        parts.append(head + "".join(h + "\r\n" for h in hdrs) + "\r\n" + body)
+        if upgrade:
+            parts.append(_x_tail(rng))
+        elif not eof and rng.random() < 0.3:
+            parts.append("HTTP/1.1 204 No Content\r\n\r\n")
+    s = "".join(parts)
+    n = len(s)
+    accept = rng.random() < (0.8 if upgrade else 0.3)
+    cut_sets = []
+    for _ in range(rng.choice([8, 16])):
+        r = rng.random()
+        if r < 0.25 or n < 4:
+            k = rng.randint(1, min(12, max(1, n - 1)))
+            cs = sorted(set(rng.randrange(1, max(2, n)) for _ in range(k)))
+        elif r < 0.5:
+            cands = [i + 1 for i, c in enumerate(s) if c in "\r\n" and 0 < i + 1 < n]
+            k = rng.randint(1, min(6, max(1, len(cands))))
+            cs = sorted(set(rng.sample(cands, k))) if cands else [1]
+        elif r < 0.85:
+            # from the end of the head on: inside the (coded / chunked) body, at its end, inside what follows
+            lo, hi = min(mark, n - 1), min(n - 1, mark + len(body) + 8)
+            k = rng.randint(1, 3)
+            cs = sorted(set(rng.randint(lo, max(lo, hi)) for _ in range(k)))
+            cs = [c for c in cs if 0 < c < n] or [1]
+        else:
+            step = rng.choice([2, 3, 5, 7])
+            cs = list(range(step, n, step))
+        cut_sets.append(cs)
+    return {"side": side, "stream": s, "eof": eof, "limits": _x_limits(rng), "mode": "list", "cuts": cut_sets,
+            "block": [0, len(cut_sets)], "accept_upgrade": accept, "parts": parts, "x": {"coding": coding, "upgrade": upgrade}}
 
 
 def gen(rng, tier, index):
     """Seeded part: longer generated streams, random and adversarial k-cuts."""
+    if _x_selected(rng):
+        return _gen_x(rng)
     if rng.random() < 0.7:
         side = "server"
         for _ in range(20):
@@ -215,6 +430,24 @@ def shrink(scn):
     if scn["mode"] != "list":
         return
     cuts = scn["cuts"]
+    if scn.get("accept_upgrade"):
+        yield dict(scn, accept_upgrade=False)
+    parts = scn.get("parts")
+    if parts and len(parts) > 1:
+        # drop one message of the pipeline (or what follows the upgrade); cut offsets behind it move with it
+        pos = 0
+        for i, part in enumerate(parts):
+            rest = parts[:i] + parts[i + 1:]
+            s2 = "".join(rest)
+            c2 = []
+            for cs in cuts:
+                m = sorted(set(c if c <= pos else c - len(part) for c in cs if not pos < c <= pos + len(part)))
+                c2.append([c for c in m if 0 < c < len(s2)])
+            pos += len(part)
+            if s2:
+                yield dict(scn, stream=s2, parts=rest, cuts=c2)
+    if parts is not None and scn["limits"] != LIMIT_SETS[0]:
+        yield dict(scn, limits=dict(LIMIT_SETS[0]))
     if len(cuts) > 1:
         for i in range(len(cuts)):
             yield dict(scn, cuts=[cuts[i]], block=[0, 1])
@@ -278,6 +511,34 @@ class _Writer(asyncio.Protocol):
         self.lost = True
 
 
+class _UpgradedSink:
+    """Stands where the upgraded protocol's reader stands (the seam WebSocketReader is installed at,
+    `protocol.set_parser`): records every byte handed to the upgraded protocol in field 7 of the record."""
+
+    def __init__(self, rec):
+        self.rec = rec
+        rec[7] = b""
+        self.eof = False
+
+    def feed_data(self, data):
+        self.rec[7] += bytes(data)
+        return False, b""
+
+    def feed_eof(self):
+        self.eof = True
+
+
+_UPGRADE_SESSION = 0.2  # virtual seconds an accepted upgrade lasts (everything sent has long arrived by then)
+
+
+def _offers_upgrade(msg) -> bool:
+    """An upgrade the application can take: `Connection: upgrade` plus an `Upgrade` to websocket or tcp."""
+    if not msg.upgrade:
+        return False
+    u = msg.headers.get("Upgrade", "")
+    return u.isascii() and u.lower() in ("websocket", "tcp")
+
+
 def _classify_400(text: bytes) -> str:
     t = text.decode("latin-1", "replace")
     if "Too many headers" in t or "Too many trailers" in t:
@@ -310,14 +571,24 @@ def _server_outcomes(w, scn, cut_sets):
             raise request.pre_handler_error
         msg = request._message
         rec = [msg.method, msg.path, tuple((bytes(a), bytes(b)) for a, b in msg.raw_headers),
-               (msg.version.major, msg.version.minor), None, None, None]
+               (msg.version.major, msg.version.minor), None, None, None, None]
         recs.append(rec)
         body, pieces, cur = bytearray(), [], 0
+
+        async def finish():
+            if accept_upgrade and _offers_upgrade(msg):
+                # the application takes the offered upgrade (as WebSocketResponse.prepare does) once the
+                # request has been read: every byte after the request belongs to the upgraded protocol
+                request.protocol.set_parser(_UpgradedSink(rec))
+                request.protocol.keep_alive(False)
+                await asyncio.sleep(_UPGRADE_SESSION)
+            return web.Response(body=b"ok")
+
         if request.content.at_eof() and not request.content.total_bytes:
             # body-less request: EMPTY_PAYLOAD is a process-wide singleton whose readchunk()
             # answer depends on earlier calls (known finding C08-F1) - not a segmentation matter
             rec[4], rec[5] = b"", ()
-            return web.Response(body=b"ok")
+            return await finish()
         try:
             while True:
                 data, end = await request.content.readchunk()
@@ -336,9 +607,10 @@ def _server_outcomes(w, scn, cut_sets):
             rec[4] = bytes(body)
             errtext[cid] = "payload:" + "_".join(re.sub(r"[^A-Za-z ]", " ", str(getattr(e, "message", None) or e)).split()[:4])
             raise
-        return web.Response(body=b"ok")
+        return await finish()
 
     lim = scn["limits"]
+    accept_upgrade = bool(scn.get("accept_upgrade"))
 
     async def mk():
         return web.Server(handler, max_line_size=lim["max_line_size"], max_field_size=lim["max_field_size"],
@@ -381,11 +653,12 @@ def _server_outcomes(w, scn, cut_sets):
 
 def _client_outcomes(w, scn, cut_sets):
     from aiohttp.client_proto import ResponseHandler
-    from aiohttp.streams import EofStream
+    from aiohttp.streams import EofStream, StreamReader
 
     loop, net = w.loop, w.net
     net.max_latency_ticks = 0
     lim = scn["limits"]
+    accept_upgrade = bool(scn.get("accept_upgrade"))
     data = G.enc(scn["stream"])
     outcomes = []
     for cs in cut_sets:
@@ -396,16 +669,25 @@ def _client_outcomes(w, scn, cut_sets):
         recs = []
         final = {"exc": None}
 
+        async def upgrade(rec, proto=proto):
+            # the client takes the upgrade (as ClientSession.ws_connect does): what follows the response
+            # belongs to the upgraded protocol
+            proto.set_parser(_UpgradedSink(rec), StreamReader(proto, 2 ** 16, loop=loop))
+            await asyncio.sleep(_UPGRADE_SESSION)
+
         async def consume():
             try:
                 while True:
                     msg, payload = await proto.read()
                     rec = [msg.code, msg.reason, tuple((bytes(a), bytes(b)) for a, b in msg.raw_headers),
-                           (msg.version.major, msg.version.minor), None, None, None]
+                           (msg.version.major, msg.version.minor), None, None, None, None]
                     recs.append(rec)
                     body, pieces, cur = bytearray(), [], 0
                     if payload.at_eof() and not payload.total_bytes:
                         rec[4], rec[5] = b"", ()
+                        if accept_upgrade and _offers_upgrade(msg):
+                            await upgrade(rec)
+                            break
                         continue
                     try:
                         while True:
@@ -422,6 +704,9 @@ def _client_outcomes(w, scn, cut_sets):
                         raise
                     except Exception as e:
                         rec[4], rec[6] = bytes(body), type(e).__name__
+                        break
+                    if accept_upgrade and _offers_upgrade(msg):
+                        await upgrade(rec)
                         break
             except EofStream:
                 final["exc"] = "EofStream"
@@ -461,8 +746,11 @@ def _norm_client_err(e):
     return str(m)
 
 
-def _compare(base, other, side, strict_class=True):
-    """Return (invariant, key, detail) or None."""
+def _compare(base, other, side, strict_class=True, extra=None):
+    """Return (invariant, key, detail) or None; differences that form a class of their own and do not end
+    the comparison are appended to `extra`."""
+    if extra is None:
+        extra = []
     def _blocked(o):
         return any(m[4] is None and m[6] is None for m in o["msgs"]) or bool(o.get("blocked"))
 
@@ -512,12 +800,21 @@ def _compare(base, other, side, strict_class=True):
     k = min(len(bm), len(om))
     for i in range(k):
         a, b = bm[i], om[i]
-        names = ("start0", "start1", "headers", "version", "body", "chunk_boundaries", "error")
-        for f in range(7):
+        names = ("start0", "start1", "headers", "version", "body", "chunk_boundaries", "error", "upgraded_bytes")
+        for f in range(8):
             if a[f] != b[f]:
                 if (br is not None or after_close) and i == k - 1 and f in (4, 5, 6):
                     continue  # the message being received when the rejection hit
                 if f == 5 and (a[5] is None or b[5] is None):
+                    continue
+                if f == 5 and [x for x in a[5] if x] == [x for x in b[5] if x]:
+                    # same data, same non-empty pieces: one delivery schedule reports an additional chunk end
+                    # with no data in it (a class of its own; the remaining fields are still compared)
+                    coded = any(n.lower() == b"content-encoding" for n, _ in a[2])
+                    extra.append(("same_messages", f"{side}:empty_chunk_reported_under_one_segmentation:"
+                                                   f"{'coded' if coded else 'plain'}_body",
+                                  f"message #{i}: readchunk() reports an end of chunk without data under one segmentation "
+                                  f"only: pieces {a[5]} vs {b[5]}"))
                     continue
                 if f == 4 and (a[4] is None or b[4] is None) and a[6] is None and b[6] is None:
                     return ("same_messages", f"{side}:reader_blocked_under_one_segmentation",
@@ -547,26 +844,36 @@ def run(scn, ch, log=False):
             if o["exc"] and not viols:
                 viols.append({"invariant": "no_escape", "key": f"{scn['side']}:exception_in_loop",
                               "message": f"exception reached the loop under cut set {cs2[idx]}"})
+        seen = set()
         for base_name, base in (("whole", base_whole), ("byte", base_byte)):
-            if viols:
+            if viols and not seen:
                 break
             for idx in range(1, len(outs)):
-                r = _compare(base, outs[idx], scn["side"], bool(scn.get("strict_class", False)))
-                if r is not None:
+                extra = []
+                r = _compare(base, outs[idx], scn["side"], bool(scn.get("strict_class", False)), extra)
+                # one violation per class: a class that is already on record (possibly a known finding) does
+                # not hide a different one met under a later cut set
+                for r in ([r] if r is not None else []) + extra:
+                    if (r[0], r[1]) in seen:
+                        continue
+                    seen.add((r[0], r[1]))
                     cs = cs2[idx]
                     viols.append({"invariant": r[0], "key": r[1],
                                   "message": f"{r[2]}; baseline={base_name}, cut set={cs if cs is None or len(cs) < 12 else str(cs[:12]) + '...'}; "
                                              f"limits={scn['limits']}; stream={scn['stream'][:160]!r}"})
-                    break
         st = w.stats()
         nontrivial = any(o["msgs"] or o["rejected"] for o in outs)
         res = {
             "violations": viols, "nontrivial": bool(nontrivial),
-            "sig": f"{hash_str(scn['stream'])}|{sorted(scn['limits'].items())}|{scn['mode']}|{scn['block']}",
+            "sig": f"{hash_str(scn['stream'])}|{sorted(scn['limits'].items())}|{scn['mode']}|{scn['block']}|{int(bool(scn.get('accept_upgrade')))}",
             "digest": st["digest"], "steps": st["steps"], "vtime": st["vtime"], "faults": st["faults"],
             "probes": {"segmentations": len(outs), "mode_" + scn["mode"]: 1, "side_" + scn["side"]: 1,
                        "rejected_streams": int(base_whole["rejected"] is not None),
-                       "reader_paused": int(bool(st["faults"].get("pause_reading")))},
+                       "reader_paused": int(bool(st["faults"].get("pause_reading"))),
+                       "upgrade_taken": int(any(m[7] is not None for m in base_whole["msgs"])),
+                       "upgraded_bytes_seen": int(any(m[7] for m in base_whole["msgs"])),
+                       "coded_body": int(any(any(n.lower() == b"content-encoding" for n, _ in m[2]) and m[4]
+                                             for m in base_whole["msgs"]))},
             "shape": f"{scn['side']}-{scn['mode']}-L{scn['limits']['max_line_size']}/{scn['limits']['max_field_size']}",
         }
         if log:
